@@ -6,7 +6,7 @@ fault-free (deterministic fair schedule) to count its fault-eligible network ops
 points; then one run per (op index, documented fault kind of that op) and one run per (suspension index,
 cancellation style). Random layer: Hypothesis draws kind/context/shape, 1-2 fault or cancel positions and a schedule.
 Oracle, after every caller has returned and the system is quiescent: the pool counts no request, no connection is
-stuck, a behavioural capacity probe (max_connections held-open requests to fresh origins, pool timeout 0) succeeds;
+stuck, a behavioural capacity probe (max_connections held-open requests - the first to the victim's origin, the others to fresh origins - pool timeout 0) succeeds;
 ledger: every open stream is owned by a pooled connection, and none is open after the pool is closed.
 """
 from __future__ import annotations
@@ -126,7 +126,9 @@ async def epilogue(run):
     probe = []
     world.current_actor = "probe"
     for i in range(n):
-        cm = pool.stream("GET", f"{scheme}://p{i}.test/t/probe{i}", extensions={"timeout": {"pool": 0}})
+        # the first probe goes to the victim's own origin (a dead connection to it must not block it), the others to fresh origins
+        host = "a.test" if i == 0 else f"p{i}.test"
+        cm = pool.stream("GET", f"{scheme}://{host}/t/probe{i}", extensions={"timeout": {"pool": 0}})
         try:
             resp = await cm.__aenter__()
             held.append(cm)
